@@ -155,6 +155,17 @@ def norm(text_or_node) -> str:
 
 def _classes(path):
     tree = ast.parse((SRC / path).read_text())
+    # nothing at module level may rebind what the classes define (e.g. `TensorMcmcSaemAlgorithm._iteration = f` after the class)
+    for st in tree.body:
+        if isinstance(st, (ast.Import, ast.ImportFrom, ast.ClassDef, ast.FunctionDef)):
+            continue
+        if isinstance(st, ast.Expr) and isinstance(st.value, ast.Constant):
+            continue
+        if isinstance(st, ast.Assign) and all(isinstance(t, ast.Name) for t in st.targets):
+            continue
+        if isinstance(st, ast.AnnAssign) and isinstance(st.target, ast.Name):
+            continue
+        raise Untranslatable(f"{path}: module-level statement `{ast.unparse(st)[:80]}`")
     return {n.name: n for n in tree.body if isinstance(n, ast.ClassDef)}
 
 
@@ -183,11 +194,16 @@ class Translator:
             if cls.keywords or cls.decorator_list:
                 raise Untranslatable(f"class {cname} has a metaclass / decorator")
             self.mro.append((cname, path, cls, {f.name: f for f in cls.body if isinstance(f, ast.FunctionDef)}))
+            hooks = {"__getattr__", "__getattribute__", "__setattr__", "__delattr__", "__init_subclass__", "__class_getitem__"} & set(self.mro[-1][3])
+            if hooks:
+                raise Untranslatable(f"class {cname} defines {sorted(hooks)} (attribute access would not mean what the translator reads)")
         om = _classes("algo/fit/fit_output_manager.py").get("FitOutputManager")
         if om is None:
             raise Untranslatable("class FitOutputManager not found")
         if om.bases or om.keywords or om.decorator_list:
             raise Untranslatable("FitOutputManager has bases / decorators")
+        if {"__getattr__", "__getattribute__", "__setattr__"} & {f.name for f in om.body if isinstance(f, ast.FunctionDef)}:
+            raise Untranslatable("FitOutputManager defines attribute hooks")
         self.om = {f.name: f for f in om.body if isinstance(f, ast.FunctionDef)}
         # nothing outside a method may define behaviour we rely on (e.g. `_iteration = other` in a class body)
         for cname, path, cls, meths in self.mro:
